@@ -13,8 +13,10 @@ correspondence check only; their acceptance theorems are not proved yet.
 namespace Cutplace.Props
 open Cutplace Cutplace.Spec
 
-/-- `int(str(n)) = n` for every integer: the canonical text of an integer denotes that integer. -/
-theorem C02_int_text_roundtrip (n : Int) : pyIntBase10 (intRepr n) = some n := by
+/-- `int(str(n)) = n` for every integer whose decimal text stays within CPython's conversion limit
+(`sys.get_int_max_str_digits()`, 4300 digits): the canonical text of an integer denotes that integer.
+Beyond the limit `int()` raises `ValueError` and the cell is rejected (`C02_int_text_beyond_limit`). -/
+theorem C02_int_text_roundtrip (n : Int) (hd : (digits n.natAbs).length ≤ maxStrDigits) : pyIntBase10 (intRepr n) = some n := by
   unfold pyIntBase10 intRepr natRepr
   have hne := digits_ne_nil n.natAbs
   have hlt := digits_lt10 n.natAbs
@@ -25,7 +27,8 @@ theorem C02_int_text_roundtrip (n : Int) : pyIntBase10 (intRepr n) = some n := b
     rw [hs]
     simp only [splitSign]
     rw [dropDigitUnderscores_digits _ hne hlt]
-    simp only [map_digitVal_digitChar _ hlt, parse_digits, if_true]
+    have hd' : ¬ (List.map digitChar (digits n.natAbs)).length > maxStrDigits := by simp only [List.length_map]; omega
+    simp only [hd', map_digitVal_digitChar _ hlt, parse_digits, if_true, if_false]
     congr 1; omega
   · simp only [hn, if_false]
     have hs := strip_digits (digits n.natAbs) hne hlt [] (by simp)
@@ -33,8 +36,32 @@ theorem C02_int_text_roundtrip (n : Int) : pyIntBase10 (intRepr n) = some n := b
     rw [hs, splitSign_digits _ hlt]
     simp only []
     rw [dropDigitUnderscores_digits _ hne hlt]
-    simp only [map_digitVal_digitChar _ hlt, parse_digits, Bool.false_eq_true, if_false]
+    have hd' : ¬ (List.map digitChar (digits n.natAbs)).length > maxStrDigits := by simp only [List.length_map]; omega
+    simp only [hd', map_digitVal_digitChar _ hlt, parse_digits, Bool.false_eq_true, if_false]
     congr 1; omega
+
+/-- beyond CPython's limit the canonical text is not converted (the real `int()` raises `ValueError`,
+which the Integer field turns into a rejection) -/
+theorem C02_int_text_beyond_limit (n : Int) (hd : (digits n.natAbs).length > maxStrDigits) : pyIntBase10 (intRepr n) = none := by
+  unfold pyIntBase10 intRepr natRepr
+  have hne := digits_ne_nil n.natAbs
+  have hlt := digits_lt10 n.natAbs
+  have hd' : (List.map digitChar (digits n.natAbs)).length > maxStrDigits := by simp only [List.length_map]; omega
+  by_cases hn : n < 0
+  · simp only [hn, if_true]
+    have hs := strip_digits (digits n.natAbs) hne hlt ['-'] (by intro c hc; simp at hc; subst hc; decide)
+    simp only [List.singleton_append] at hs
+    rw [hs]
+    simp only [splitSign]
+    rw [dropDigitUnderscores_digits _ hne hlt]
+    simp only [hd', if_true]
+  · simp only [hn, if_false]
+    have hs := strip_digits (digits n.natAbs) hne hlt [] (by simp)
+    simp only [List.nil_append] at hs
+    rw [hs, splitSign_digits _ hlt]
+    simp only []
+    rw [dropDigitUnderscores_digits _ hne hlt]
+    simp only [hd', if_true]
 
 /-- Integer: a (non-empty, ASCII) cell is accepted iff it is an integer literal whose value lies in
 the field's valid range, and then the native value is that integer. -/
@@ -50,7 +77,7 @@ theorem C02_integer (valid : Range) (cell : Str) (ha : isAscii cell = true) (v :
     · simp [hv]
 
 /-- ... and since the valid range is a `Range`, "lies in the range" is C01's membership. -/
-theorem C02_integer_rule (d : RangeDesc) (n : Int) :
+theorem C02_integer_rule (d : RangeDesc) (n : Int) (hdig : (digits n.natAbs).length ≤ maxStrDigits) :
     (FieldKind.integer (rangeOfItems (denote d))).validatedValue (intRepr n) = .ok (some (.int n)) ↔ Accepts d n := by
   have ha : isAscii (intRepr n) = true := by
     unfold isAscii intRepr natRepr
@@ -65,7 +92,7 @@ theorem C02_integer_rule (d : RangeDesc) (n : Int) :
       exact ⟨by decide, hd⟩
     · simp only [List.all_eq_true, decide_eq_true_eq]; exact hd
   rw [C02_integer _ _ ha]
-  simp only [C02_int_text_roundtrip, Option.some.injEq]
+  simp only [C02_int_text_roundtrip n hdig, Option.some.injEq]
   constructor
   · rintro ⟨m, hm, hv, _⟩
     subst hm
